@@ -128,7 +128,7 @@ impl Adapter for CbAd {
         let min = *rng.pick(&[1, n, n + 1, (n / 2).max(1)]);
         json!({
             "wt": wt, "N": n, "min": min, "thr": *rng.pick(&[0u64, 1, 2, 3, 4, 2, 2]), "perm": if storm { 1 + rng.below(2) } else { 1 + rng.below(3) },
-            "slowOn": rng.below(2), "slowThr": 2 + rng.below(2), "slowRate": *rng.pick(&[1u64, 2, 4]),
+            "slowOn": rng.below(2), "slowThr": 2 + rng.below(2), "slowRate": *rng.pick(&[1u64, 2, 4, 0]), "srOff": rng.below(2),
             "D": *rng.pick(&[2u64, 4, 7]), "wait": if storm { 1 + rng.below(2) as u64 } else if rng.pct(4) { 1000000 } else { *rng.pick(&[1u64, 2, 3, 5]) }, "cls": *rng.pick(&["default", "e2ok"]),
             "fb": if seq { 0 } else { rng.below(2) },
             // lazy: the executor may let time pass before a runnable caller is polled (seq: late first polls of one
@@ -159,6 +159,9 @@ impl Adapter for CbAd {
                     .minimum_number_of_calls(u("min") as usize);
                 if u("slowOn") == 1 {
                     b = b.slow_call_duration_threshold(Duration::from_millis(u("slowThr"))).slow_call_rate_threshold(q(u("slowRate")));
+                } else if cfg["srOff"].as_u64().unwrap_or(0) == 1 {
+                    // a slow-call RATE threshold (also 0) without a slow-call duration threshold: detection stays off
+                    b = b.slow_call_rate_threshold(q(u("slowRate")));
                 }
                 b
             }};
